@@ -276,6 +276,17 @@ def run_pipeline(spec, keep=False):
         except Exception as err:  # pylint: disable=broad-except
             result["top"] = dict(ok=False, err="%s: %s" % (type(err).__name__, str(err)[:300]),
                                  cause=repr(getattr(err, "__cause__", None))[:300])
+        # (1b) the flattened form: one .top whose text is the written itp followed by [ system ] / [ molecules ]
+        flat_path = pathlib.Path(tmp) / "flat.top"
+        flat_path.write_text(text + "\n[ system ]\nverif\n[ molecules ]\n%s 1\n" % name)
+        try:
+            top = Topology.from_gmx_topfile(str(flat_path), "verif_flat")
+            meta = top.molecules[0]
+            result["flat"] = dict(ok=True, block=block_to_json(meta.molecule), graph=res_graph_to_json(meta),
+                                  block_name=meta.mol_name, nrexcl=top.force_field.blocks[name].nrexcl)
+        except Exception as err:  # pylint: disable=broad-except
+            result["flat"] = dict(ok=False, err="%s: %s" % (type(err).__name__, str(err)[:300]),
+                                  cause=repr(getattr(err, "__cause__", None))[:300])
         # (2) MetaMolecule.from_itp
         try:
             ff = vermouth.forcefield.ForceField("verif_itp")
